@@ -179,6 +179,11 @@ def gen_part(rng, pid, divs=None, nbars=None, pickup=False, qd_change=False, p_n
                                 force_chain = rng.randint(1, 4)
                 pos += dur
     rng.shuffle(d["notes"])
+    if rng.random() < 0.35:
+        # construction HISTORY (gen_score.build_part): read-only views (note arrays, notes_tied, maps, ...) are called
+        # between the construction steps - e.g. before the ties are set - and the notes may be placed wrongly first
+        # and re-added; the table must describe the part as it is when the array is asked for, whatever was read before
+        d["warm"] = rng.choice([1, 2, 4, 8, 16, 31, 34, 63, 64, 66, 127, 128, 128, 160, 192, 255])
     return d
 
 
